@@ -16,7 +16,7 @@ const SPEC: Spec = Spec {
     ],
     bounds_quick: "stream length <= 8 words; gen_biguint/gen_bigint/RandomBits for every n in 0..=130; below/range/Uniform over 10 bounds x 3 offsets and 14 signed ranges; uniformity for widths <= 11; panic clauses; ChaCha vectors",
     bounds_thorough: "stream length <= 10 words; n in 0..=260; uniformity for widths <= 13",
-    hang_secs: 600,
+    hang_secs: 120,
     probes: None,
     max_workers: 16,
 };
